@@ -32,6 +32,9 @@ type Frame struct {
 	// Encoder-only knobs.
 	LenBytes    int     // 0 = minimal encoding; 2 or 8 force the extended form
 	DeclaredLen *uint64 // if set, written instead of len(Payload)
+	// HideFrame: (harness, resolved before encoding) the bytes this frame's payload puts on the wire are themselves a
+	// complete valid data frame for the receiving role - what a receiver that lost its place in the stream would read next.
+	HideFrame bool
 
 	// Decoder-only facts.
 	HdrLen     int  // header bytes consumed
